@@ -168,7 +168,51 @@ def _dispatch_for(loop_body, env0, ty):
     return calls[0] if calls else 'skip'
 
 
-def to_polyhedron(fn):
+COPY_FUNCS = {'np.array', 'np.asarray', 'np.asanyarray', 'np.copy', 'np.ascontiguousarray', 'numpy.array',
+              'copy.copy', 'copy.deepcopy'}
+
+
+def _copy_helpers(cls):
+    """private methods with one array parameter that only build and return a value
+    (no assignment to an attribute or item of self, every return has a value): candidates
+    for "returns a copy of its argument" -- that the content is equal is checked on every
+    run by the oracle (ids / connectivity of the polyhedral mesh == the source mesh's)"""
+    out = set()
+    for n in cls.body:
+        if not (isinstance(n, ast.FunctionDef) and n.name.startswith('_')):
+            continue
+        params = [a.arg for a in n.args.args]
+        static = any(ast.unparse(d) == 'staticmethod' for d in n.decorator_list)
+        if len(params) != (1 if static else 2) or (not static and params[0] != 'self'):
+            continue
+        rets = [x for x in ast.walk(n) if isinstance(x, ast.Return)]
+        writes = [t for x in ast.walk(n) if isinstance(x, (ast.Assign, ast.AugAssign))
+                  for t in (x.targets if isinstance(x, ast.Assign) else [x.target])
+                  if any(isinstance(y, ast.Name) and y.id == 'self' for y in ast.walk(t))]
+        if rets and all(r.value is not None for r in rets) and not writes:
+            out.add(n.name)
+    return out
+
+
+class _StripCopies(ast.NodeTransformer):
+    """np.array(x) / np.asarray(x) / x.copy() / self._helper(x) -> x"""
+    def __init__(self, helpers):
+        self.helpers = helpers
+
+    def visit_Call(self, n):
+        self.generic_visit(n)
+        f = ast.unparse(n.func)
+        if len(n.args) == 1 and not n.keywords and (
+                f in COPY_FUNCS or
+                (isinstance(n.func, ast.Attribute) and isinstance(n.func.value, ast.Name) and
+                 n.func.value.id in ('self', 'FEMData', 'cls') and n.func.attr in self.helpers)):
+            return n.args[0]
+        if not n.args and not n.keywords and isinstance(n.func, ast.Attribute) and n.func.attr == 'copy':
+            return n.func.value
+        return n
+
+
+def to_polyhedron(fn, cls=None):
     """the prologue / epilogue are pinned; the dispatch type -> kernel inside the type loop
     is obtained by an abstract run of the loop body for each type (if / elif chains, a
     dict of kernels, guard clauses with continue / raise are all read the same way)"""
@@ -203,8 +247,12 @@ def to_polyhedron(fn):
             "elements = FEMElementalAttribute('ELEMENT', {'polyhedron': polyhedron})",
             "face = FEMElementalAttribute('face', {'polyhedron': FEMAttribute('face', "
             "ids=self.elements.ids, data=face_dat)})"]
+    # wrappers that only copy an array given to the result constructor are the identity here
+    import copy as _copy
+    src_tail = ast.unparse(_StripCopies(_copy_helpers(cls) if cls is not None else set()).visit(
+        _copy.deepcopy(fn)))
     for n in tail:
-        if src.count(n) != 1:
+        if src_tail.count(n) != 1:
             raise TranslateError(f'to_polyhedron: expected {n!r}')
     return disp
 
@@ -946,10 +994,11 @@ def translate(repo, degrade=True):
                 consumed[label] = 'missing'
         return val
 
-    disp = region('to_polyhedron', lambda: to_polyhedron(_method(cls, 'to_polyhedron')),
+    disp = region('to_polyhedron', lambda: to_polyhedron(_method(cls, 'to_polyhedron'), cls),
                   [('fem_data.py:to_polyhedron', fsrc, lambda: _method(cls, 'to_polyhedron'))])
     if disp is None:
-        disp = {ty: (k['kernel'], k['int32']) for ty, k in base['kernels'].items()}
+        disp = {ty: (base['kernels'][ty]['kernel'], base['kernels'][ty]['int32'])
+                for ty in KERNEL_TYPES if ty in base['kernels']}
     for ty, (kname, wrap32) in disp.items():
         k = region(kname, lambda: poly_kernel(_method(cls, kname)),
                    [('fem_data.py:' + kname, fsrc, lambda: _method(cls, kname))])
